@@ -8,8 +8,10 @@ mod gen;
 mod maggen;
 mod magpipe;
 mod pipeline;
+mod stages;
 mod tables;
 mod util;
+mod wyckoff;
 
 struct StderrLogger;
 impl log::Log for StderrLogger {
@@ -50,12 +52,15 @@ fn main() {
         "pipe-gen" => pipeline::gen_cases(&args[2], &args[3], seed, &args[4]),
         // pipe-one <mode> <tier> <tag>: regenerate the plan and print only the case with this tag
         "pipe-one" => pipeline::gen_one(&args[2], &args[3], seed, &args[4]),
+        // stage-gen <tier> <out>: stage-by-stage dumps
+        "stage-gen" => stages::gen(&args[2], seed, &args[3]),
         // eval <infile> <outfile> <start>: evaluate request lines one by one, flushing after each
         "eval" => eval(&args[2], &args[3], args[4].parse().unwrap()),
         other => {
             // Dispatch chain for per-property modules: each `dispatch` returns true if it handled the command.
             let handled = false;
             let handled = handled || c14::dispatch(&args, seed);
+            let handled = handled || wyckoff::dispatch(&args, seed);
             let handled = handled || c18::dispatch(&args, seed);
             let handled = handled || c19::dispatch(&args, seed);
             let handled = handled || c20::dispatch(&args, seed);
